@@ -346,7 +346,35 @@ func c18Run(c *Ctx) {
 		chain := cur.Chain()
 		host := chain[r.Intn(len(chain))]
 		var aerr error
-		if host.Parent == nil {
+		latePrefix := ""
+		if r.Chance(1, 3) && d.resolveLive(b) == "" {
+			// nested into an existing group with Group.AddGroup (the default group of the parser, a command's own
+			// group or one of their sub-groups)
+			var gs []*Grp
+			var rec func(g *Grp)
+			rec = func(g *Grp) {
+				if g.FG != nil {
+					gs = append(gs, g)
+				}
+				for _, sg := range g.Subs {
+					rec(sg)
+				}
+			}
+			rec(host.G)
+			if len(gs) > 0 {
+				hg := gs[r.Intn(len(gs))]
+				_, aerr = hg.FG.AddGroup("Late Options", "", late)
+				lateStage = "group"
+				// the new options inherit the namespaces of the groups they were nested into
+				for g := hg; g != nil; g = g.Parent {
+					if g.Namespace != "" {
+						latePrefix = g.Namespace + d.nsDelim() + latePrefix
+					}
+				}
+			}
+		}
+		if lateStage != "" {
+		} else if host.Parent == nil {
 			_, aerr = b.P.AddGroup("Late Options", "", late)
 			lateStage = "parser"
 		} else if host.FC != nil {
@@ -362,8 +390,8 @@ func c18Run(c *Ctx) {
 				last string
 				want []string
 			}{
-				{"--zz-la", []string{"--zz-late", "--zz-late-color", "--zz-late-flag"}},
-				{"--zz-late-color=al", []string{"--zz-late-color=al pha", "--zz-late-color=alpha", "--zz-late-color=alps"}},
+				{"--" + latePrefix + "zz-la", []string{"--" + latePrefix + "zz-late", "--" + latePrefix + "zz-late-color", "--" + latePrefix + "zz-late-flag"}},
+				{"--" + latePrefix + "zz-late-color=al", []string{"--" + latePrefix + "zz-late-color=al pha", "--" + latePrefix + "zz-late-color=alpha", "--" + latePrefix + "zz-late-color=alps"}},
 			} {
 				args2 := append(append([]string{}, prefix...), q.last)
 				got2, _, pi2 := c18Complete(b, args2)
